@@ -140,4 +140,111 @@ theorem PoolInv.poolLoop (w : World) (p : Pid) (pl rem ini : Nat) (pre : Bool) (
       · exact h2
       · exact (h2.same (guardWaitEnter_same _ _ _ _)).same (block_same _ _ _)
 
+theorem amountOf_le_amounts {q : KPQ} (hnd : (keys q).Nodup) (k : Nat) : amountOf q k ≤ amounts q := by
+  have := HashHeap.amounts_remove hnd k; omega
+
+theorem mem_keys_of_amountOf_pos {q : KPQ} {k : Nat} (h : 0 < amountOf q k) : k ∈ keys q := by
+  apply Classical.byContradiction
+  intro hn
+  rw [HashHeap.amountOf_of_not_mem hn] at h
+  exact absurd h (by decide)
+
+theorem PoolInv.poolRollback (w : World) (p : Pid) (pl ini : Nat) (hi : PoolInv w) : PoolInv (poolRollback w p pl ini) := by
+  unfold Sim.poolRollback
+  split
+  · exact hi
+  · rename_i x hx
+    have hv := poolView_of_get hx
+    have vok := (hi.2 pl _ hv).1
+    have hsum := vok.sum
+    have hcap := vok.inCap
+    have hok : HoldersOK w.procs.size x.holders := vok.toHoldersOK
+    have hnow : heldAmount w pl p = amountOf (abs x.holders) (p + 1) := heldAmount_eq hv vok.wf p
+    have hle := amountOf_le_amounts hok.wf.keys_nodup (p + 1)
+    simp only [Pool.view] at hsum hcap
+    split
+    · dsimp only
+      split
+      · rename_i hini hgt
+        have hk : p + 1 ∈ keys (abs x.view.holders) := mem_keys_of_amountOf_pos (q := abs x.holders) (by omega)
+        obtain ⟨h', st1, hsum1, _, _⟩ := (PSt.init hi hv).setHeld hk ini
+        dsimp only [Pool.view] at hsum1
+        refine (((st1.setInUse (x.inUse - (heldAmount w pl p - ini))).record pl).same (signal_same _ x.guard)).close hi ?_ ?_
+        · show x.inUse - (heldAmount w pl p - ini) = amounts (abs h'); omega
+        · show x.inUse - (heldAmount w pl p - ini) ≤ x.cap; omega
+      · exact hi
+    · dsimp only
+      have st2 := ((PSt.init hi hv).setInUse (x.inUse - heldAmount w pl p)).record pl
+      split
+      · rename_i h' found hr
+        obtain ⟨ok', hsum', hkeys', hfound, _, _⟩ := remove_holders hok p hr
+        have hu := modifyHolders_upd st2.upd.view h'
+        have st4 : PSt w (if found = true then
+            (removeHeld { (recordPool (setPoolInUse w pl (x.inUse - heldAmount w pl p)) pl) with
+              pools := (recordPool (setPoolInUse w pl (x.inUse - heldAmount w pl p)) pl).pools.modify pl
+                fun y => { y with holders := h' } } p (HoldRef.pool pl)).1
+            else { (recordPool (setPoolInUse w pl (x.inUse - heldAmount w pl p)) pl) with
+              pools := (recordPool (setPoolInUse w pl (x.inUse - heldAmount w pl p)) pl).pools.modify pl
+                fun y => { y with holders := h' } }) pl ⟨x.cap, x.inUse - heldAmount w pl p, h'⟩ := by
+          split
+          · exact st2.dropKey hu (fun _ => rfl) ok' hkeys'
+          · rename_i hnf
+            refine st2.dropAbsent hu (fun _ => rfl) ok' hkeys' ?_
+            intro hm
+            rw [hfound] at hnf
+            have hm' : p + 1 ∈ keys (abs x.holders) := hm
+            simp [hm'] at hnf
+        refine (st4.same (signal_same _ x.guard)).close hi ?_ ?_
+        · show x.inUse - heldAmount w pl p = amounts (abs h'); omega
+        · show x.inUse - heldAmount w pl p ≤ x.cap; omega
+      · rename_i f hr
+        obtain ⟨s', hrun, _⟩ := HashHeap.remove_abs hok.wf (p + 1) (by simp)
+        rw [hrun] at hr; cases hr
+
+theorem PoolInv.poolRelease (w : World) (p : Pid) (pl n : Nat) (hi : PoolInv w) :
+    PoolInv (execCmd w p (.poolRelease pl n)).1 := by
+  simp only [execCmd]
+  split
+  · exact hi
+  · rename_i x hx
+    have hv := poolView_of_get hx
+    have vok := (hi.2 pl _ hv).1
+    have hsum := vok.sum
+    have hcap := vok.inCap
+    have hok : HoldersOK w.procs.size x.holders := vok.toHoldersOK
+    have hnow : heldAmount w pl p = amountOf (abs x.holders) (p + 1) := heldAmount_eq hv vok.wf p
+    have hle := amountOf_le_amounts hok.wf.keys_nodup (p + 1)
+    simp only [Pool.view] at hsum hcap
+    split
+    · exact hi
+    · rename_i hn
+      have hn0 : n ≠ 0 := fun e => hn (Or.inl e)
+      have hnle : n ≤ heldAmount w pl p := by
+        apply Classical.byContradiction; intro h; exact hn (Or.inr (by omega))
+      have hk : p + 1 ∈ keys (abs x.view.holders) := mem_keys_of_amountOf_pos (q := abs x.holders) (by omega)
+      -- the caller's record shrinks by n, or disappears
+      have h1 : ∃ h', PSt w (if heldAmount w pl p = n then
+            match HashHeap.remove holder_queue_check x.holders (p + 1) with
+            | .ok (h', _) => (removeHeld { w with pools := w.pools.set! pl { x with holders := h' } } p (.pool pl)).1
+            | .error f => w.fail s!"pool release: {f}"
+          else setHeldAmount w pl p (heldAmount w pl p - n)) pl ⟨x.cap, x.inUse, h'⟩ ∧
+          amounts (abs h') + n = amounts (abs x.holders) := by
+        split
+        · rename_i heq
+          split
+          · rename_i h' found hr
+            obtain ⟨ok', hsum', hkeys', _, _, _⟩ := remove_holders hok p hr
+            exact ⟨h', (PSt.init hi hv).dropKey (setHolders_upd hx h') (fun _ => rfl) ok' hkeys', by omega⟩
+          · rename_i f hr
+            obtain ⟨s', hrun, _⟩ := HashHeap.remove_abs hok.wf (p + 1) (by simp)
+            rw [hrun] at hr; cases hr
+        · rename_i hne
+          obtain ⟨h', st1, hsum1, _, _⟩ := (PSt.init hi hv).setHeld hk (heldAmount w pl p - n)
+          dsimp only [Pool.view] at hsum1
+          exact ⟨h', st1, by omega⟩
+      obtain ⟨h', st1, hs1⟩ := h1
+      refine (((st1.setInUse (x.inUse - n)).record pl).same (signal_same _ x.guard)).close hi ?_ ?_
+      · show x.inUse - n = amounts (abs h'); omega
+      · show x.inUse - n ≤ x.cap; omega
+
 end CimbaModel.Sim
